@@ -49,6 +49,8 @@ type vCluEnv struct {
 	closed     bool
 	userOut    []int // scripted outcomes for user requests
 	twoRegions bool
+	bounce     bool // hbase:meta lists the region on alternating servers
+	refuse     int  // the next so many dials are refused
 	moved      bool // the region now lives on rs1; rs0 answers not-serving for it
 	stale      int  // hbase:meta still lists rs0 for this many more lookups
 }
@@ -78,6 +80,10 @@ func (r *vCluRC) Dial(ctx context.Context) error {
 	}
 	if r.closed > 0 {
 		return region.ErrClientClosed
+	}
+	if e.refuse > 0 {
+		e.refuse--
+		return errors.New("verif: connection refused")
 	}
 	if e.misbehave() {
 		r.dead = true
@@ -148,6 +154,9 @@ func vLookupRegion(c *client, ctx context.Context, table, key []byte) (hrpc.Regi
 	}
 	if ctx.Err() != nil {
 		return nil, "", ctx.Err()
+	}
+	if e.bounce && e.lookups%2 == 0 {
+		return vMkRegion(0, 1, nil, nil), "rs1:1", nil
 	}
 	if e.moved {
 		if e.stale > 0 {
